@@ -601,7 +601,7 @@ Definition F_elif (a : arms) := forall els merge s, F_oblock els -> wf s -> merg
 Definition F_handlers (a : arms) := forall s hbs nxt, wfb s -> NoDup hbs ->
   (forall h, In h hbs -> h < next s /\ noout s h) -> nxt < next s ->
   let s' := process_handlers s a hbs nxt in
-  mid (fun u => In u hbs) s s' /\ loops s' = loops s /\ excs s' = excs s /\ (cur s' = cur s \/ cur s' < next s') /\
+  mid (fun u => In u hbs) s s' /\ loops s' = loops s /\ excs s' = excs s /\
   s' = process_handlers' s a hbs nxt.
 Definition F_cases (a : arms) := forall s mb merge, wfb s -> mb < next s -> merge < next s ->
   let s' := process_cases s a mb merge in
@@ -1056,3 +1056,911 @@ Proof.
   apply mid_connect; [exact M8'| |lia|unfold merge in *; lia].
   destruct K5 as [->|K5]; [left; right; reflexivity|right; unfold if_s0, merge in *; ulia].
 Qed.
+
+(* ---- loops: header, body, exit (and else) blocks, the loop context, the body ---- *)
+Definition loop_s6 (s : st) (k e : N) (hasel : bool) : st :=
+  let t := nb (nb (add_stmt (connect (nb s) (cur s) (next s) ENormal) (next s) (mk k e KOther))) in
+  if hasel then nb t else t.
+Definition loop_ctx (s : st) : loopctx :=
+  {| l_header := next s; l_exit := N.succ (N.succ (next s)); l_excdepth := length (excs s) |}.
+Definition loop_s9 (s : st) (k e : N) (hasel : bool) : st :=
+  connect (connect (set_loops (loop_s6 s k e hasel) (loop_ctx s :: loops s)) (next s) (N.succ (next s)) ECondTrue)
+          (next s) (if hasel then N.succ (N.succ (N.succ (next s))) else N.succ (N.succ (next s))) ECondFalse.
+Definition loop_B (s : st) (u : N) : Prop :=
+  u = next s \/ u = N.succ (next s) \/ u = N.succ (N.succ (N.succ (next s))).
+
+Lemma loop_s6_proj s k e hasel :
+  next (loop_s6 s k e hasel) = (if hasel then N.succ (N.succ (N.succ (N.succ (next s)))) else N.succ (N.succ (N.succ (next s)))) /\
+  cur (loop_s6 s k e hasel) = cur s /\ loops (loop_s6 s k e hasel) = loops s /\ excs (loop_s6 s k e hasel) = excs s /\
+  edges (loop_s6 s k e hasel) = edges s ++ [(cur s, next s, ENormal)].
+Proof. destruct hasel; repeat split. Qed.
+
+Lemma loop_prefix s k e hasel body : wf s -> F_block body ->
+  let s6 := loop_s6 s k e hasel in
+  let s10 := process_block (set_cur (loop_s9 s k e hasel) (N.succ (next s))) body in
+  mid (eq (cur s)) s s6 /\ wfb s6 /\ (forall p, next s <= p -> noout s6 p) /\
+  mid (loop_B s) s6 s10 /\ loops s10 = loop_ctx s :: loops s /\ excs s10 = excs s /\ cur s10 < next s10 /\
+  next s6 <= next s10 /\ (cur s10 = N.succ (next s) \/ next s6 <= cur s10) /\ noout s10 (cur s10) /\
+  (forall p, next s <= p -> p < next s6 -> p <> next s -> p <> N.succ (next s) -> noout s10 p) /\
+  s10 = process_block' (set_cur (loop_s9 s k e hasel) (N.succ (next s))) body.
+Proof.
+  intros W Fb s6 s10. pose proof (wf_cur _ W) as Wc. pose proof (wf_wfb _ W) as Wb.
+  destruct (loop_s6_proj s k e hasel) as (P1 & P2 & P3 & P4 & P5). fold s6 in P1, P2, P3, P4, P5.
+  assert (M6 : mid (eq (cur s)) s s6).
+  { unfold s6, loop_s6. cbv zeta.
+    assert (M : mid (eq (cur s)) s (nb (nb (add_stmt (connect (nb s) (cur s) (next s) ENormal) (next s) (mk k e KOther))))).
+    { repeat apply mid_nb. apply mid_add_stmt. apply mid_connect; [apply mid_nb, mid_refl; exact W|left; reflexivity|ulia|ulia]. }
+    destruct hasel; [apply mid_nb|]; exact M. }
+  assert (Wb6 : wfb s6) by (apply (wfb_mid _ _ _ M6 Wb); assumption).
+  assert (No6 : forall p, next s <= p -> noout s6 p).
+  { intros p Hp u v t Hin. rewrite P5 in Hin. apply in_app_or in Hin. destruct Hin as [Hin|[Heq|[]]].
+    - pose proof (wf_bnd _ W u v t Hin). lia.
+    - inversion Heq; subst. lia. }
+  assert (Hn6 : N.succ (N.succ (N.succ (next s))) <= next s6) by (rewrite P1; destruct hasel; lia).
+  assert (M9 : mid (loop_B s) s6 (loop_s9 s k e hasel)).
+  { unfold loop_s9. apply mid_connect; [apply mid_connect; [apply mid_set_loops, mid_refl_b; exact Wb6| | |]| | |];
+      autorewrite with bst; fold s6; try (left; left; reflexivity); try lia. destruct hasel; lia. }
+  assert (W9 : wf (set_cur (loop_s9 s k e hasel) (N.succ (next s)))).
+  { apply (wf_intro (loop_B s) s6); [apply mid_set_cur; exact M9|apply Wb6| | | |]; unfold loop_s9; autorewrite with bst; fold s6.
+    - lia.
+    - rewrite P4. eapply fin_lt_mono; [apply W|lia].
+    - rewrite P4. intros l [<-|Hl].
+      + cbn [loop_ctx l_header l_exit l_excdepth]. repeat split; lia.
+      + destruct (wf_loops _ W l Hl) as (H1 & H2 & H3). repeat split; lia.
+    - repeat apply noout_connect; try lia. apply (noout_edges_eq s6); [reflexivity|]. apply No6. lia. }
+  destruct (frame_sub (loop_B s) s6 (set_cur (loop_s9 s k e hasel) (N.succ (next s))) body (mid_set_cur _ _ _ _ M9) Fb W9)
+    as (M10 & L10 & E10 & C10 & N10 & K10 & No10 & Np10 & Q10); [left; right; left; reflexivity|].
+  fold s10 in M10, L10, E10, C10, N10, K10, No10, Np10, Q10.
+  unfold loop_s9 in L10, E10, N10, K10. autorewrite with bst in L10, E10, N10, K10. fold s6 in L10, E10, N10, K10.
+  rewrite P4 in E10.
+  repeat (split; [assumption|]). split; [|exact Q10].
+  intros p Hp1 Hp2 Hp3 Hp4. apply Np10.
+  - unfold loop_s9. repeat apply noout_connect; try lia. apply (noout_edges_eq s6); [reflexivity|]. apply No6. exact Hp1.
+  - unfold loop_s9. autorewrite with bst. fold s6. exact Hp2.
+  - autorewrite with bst. exact Hp4.
+Qed.
+
+Lemma loop_B_ok s u : loop_B s u -> u = cur s \/ next s <= u.
+Proof. intros [->|[->| ->]]; right; lia. Qed.
+
+Ltac loop_pre s k e hasel body W Fb s10u s10p Es10u Es10p :=
+  let E5 := fresh "E5" in let E5' := fresh "E5'" in
+  assert (E5 : s10u = process_block (set_cur (loop_s9 s k e hasel) (N.succ (next s))) body) by exact Es10u;
+  assert (E5' : s10p = process_block' (set_cur (loop_s9 s k e hasel) (N.succ (next s))) body) by exact Es10p;
+  destruct (loop_prefix s k e hasel body W Fb) as (M6 & Wb6 & No6 & M10 & L10 & X10 & C10 & N10 & K10 & No10 & Np10 & Q10);
+  destruct (loop_s6_proj s k e hasel) as (P1 & P2 & P3 & P4 & P5);
+  rewrite <- E5 in M10, L10, X10, C10, N10, K10, No10, Np10, Q10; rewrite <- E5' in Q10; clear E5' Es10p Es10u E5; subst s10p.
+
+Lemma F_while_none k body : F_block body -> F_stmt (While k body ONone).
+Proof.
+  intros Fb s W. pose (e := end_stmt (While k body ONone)). open_stmt. open_stmt'. bsimp.
+  pose proof (wf_cur _ W) as Wc.
+  loop_pre s k e false body W Fb s10u s10p Es10u Es10p. rewrite P1 in N10, K10, Np10.
+  rewrite L10. cbn [tl].
+  rewrite (cue_noout _ _ _ _ No10). split; [|reflexivity].
+  apply (frame_finish (loop_B s) s (loop_s6 s k e false)); [exact M6| |apply loop_B_ok|reflexivity|autorewrite with bst; exact X10
+    |lia|rewrite P1; lia|unfold loop_B; lia|apply No6; lia].
+  apply mid_set_loops, mid_connect; [exact M10| |exact C10|lia].
+  destruct K10 as [->|K10]; [left; right; left; reflexivity|right; rewrite P1; exact K10].
+Qed.
+
+Lemma F_while_some k body eb : F_block body -> F_block eb -> F_stmt (While k body (OSome eb)).
+Proof.
+  intros Fb Fe s W. pose (e := end_stmt (While k body (OSome eb))). open_stmt. open_stmt'. bsimp.
+  pose proof (wf_cur _ W) as Wc.
+  loop_pre s k e true body W Fb s10u s10p Es10u Es10p. rewrite P1 in N10, K10, Np10.
+  rewrite L10 in *. cbn [tl] in *.
+  rewrite (cue_noout _ _ _ _ No10) in *.
+  set (elseb := N.succ (N.succ (N.succ (next s)))) in *.
+  set (s12 := set_loops (connect s10u (cur s10u) (next s) ELoop) (loops s)) in *.
+  assert (M12 : mid (loop_B s) (loop_s6 s k e true) s12).
+  { apply mid_set_loops, mid_connect; [exact M10| |exact C10|lia].
+    destruct K10 as [->|K10]; [left; right; left; reflexivity|right; rewrite P1; exact K10]. }
+  destruct (sub_block (loop_B s) (loop_s6 s k e true) s12 elseb eb M12 Wb6) as (M13 & L13 & X13 & C13 & N13 & K13 & No13 & Np13 & Q13).
+  { rewrite P3. reflexivity. }
+  { rewrite P4. unfold s12. autorewrite with bst. exact X10. }
+  { exact Fe. }
+  { unfold s12, elseb. autorewrite with bst. lia. }
+  { apply (noout_edges_eq (connect s10u (cur s10u) (next s) ELoop)); [reflexivity|]. apply noout_connect; [|unfold elseb; lia].
+    apply Np10; unfold elseb; lia. }
+  { left. right. right. reflexivity. }
+  rewrite <- Et1u in M13, L13, X13, C13, N13, K13, No13, Np13, Q13. rewrite <- Et1p in Q13. clear Et1u Et1p. subst t1p.
+  unfold s12 in N13, K13. autorewrite with bst in N13, K13.
+  rewrite (cue_noout _ _ _ _ No13). split; [|reflexivity].
+  apply (frame_finish (loop_B s) s (loop_s6 s k e true)); [exact M6| |apply loop_B_ok|autorewrite with bst; congruence|autorewrite with bst; congruence
+    |lia|rewrite P1; lia|unfold loop_B; lia|apply No6; lia].
+  apply mid_connect; [exact M13| |exact C13|lia].
+  destruct K13 as [->|K13]; [left; right; right; reflexivity|right; rewrite P1; unfold elseb in *; lia].
+Qed.
+
+Lemma F_for_none k body : F_block body -> F_stmt (For k body ONone).
+Proof.
+  intros Fb s W. pose (e := end_stmt (For k body ONone)). open_stmt. open_stmt'. bsimp.
+  pose proof (wf_cur _ W) as Wc.
+  loop_pre s k e false body W Fb s10u s10p Es10u Es10p. rewrite P1 in N10, K10, Np10.
+  rewrite L10. cbn [tl].
+  rewrite (cue_noout _ _ _ _ No10). split; [|reflexivity].
+  apply (frame_finish (loop_B s) s (loop_s6 s k e false)); [exact M6| |apply loop_B_ok|reflexivity|autorewrite with bst; exact X10
+    |lia|rewrite P1; lia|unfold loop_B; lia|apply No6; lia].
+  apply mid_set_loops, mid_connect; [exact M10| |exact C10|lia].
+  destruct K10 as [->|K10]; [left; right; left; reflexivity|right; rewrite P1; exact K10].
+Qed.
+
+Lemma F_for_some k body eb : F_block body -> F_block eb -> F_stmt (For k body (OSome eb)).
+Proof.
+  intros Fb Fe s W. pose (e := end_stmt (For k body (OSome eb))). open_stmt. open_stmt'. bsimp.
+  pose proof (wf_cur _ W) as Wc.
+  loop_pre s k e true body W Fb s10u s10p Es10u Es10p. rewrite P1 in N10, K10, Np10.
+  rewrite L10 in *. cbn [tl] in *.
+  rewrite (cue_noout _ _ _ _ No10) in *.
+  set (elseb := N.succ (N.succ (N.succ (next s)))) in *.
+  set (s12 := set_loops (connect s10u (cur s10u) (next s) ELoop) (loops s)) in *.
+  assert (M12 : mid (loop_B s) (loop_s6 s k e true) s12).
+  { apply mid_set_loops, mid_connect; [exact M10| |exact C10|lia].
+    destruct K10 as [->|K10]; [left; right; left; reflexivity|right; rewrite P1; exact K10]. }
+  destruct (sub_block (loop_B s) (loop_s6 s k e true) s12 elseb eb M12 Wb6) as (M13 & L13 & X13 & C13 & N13 & K13 & No13 & Np13 & Q13).
+  { rewrite P3. reflexivity. }
+  { rewrite P4. unfold s12. autorewrite with bst. exact X10. }
+  { exact Fe. }
+  { unfold s12, elseb. autorewrite with bst. lia. }
+  { apply (noout_edges_eq (connect s10u (cur s10u) (next s) ELoop)); [reflexivity|]. apply noout_connect; [|unfold elseb; lia].
+    apply Np10; unfold elseb; lia. }
+  { left. right. right. reflexivity. }
+  rewrite <- Et1u in M13, L13, X13, C13, N13, K13, No13, Np13, Q13. rewrite <- Et1p in Q13. clear Et1u Et1p. subst t1p.
+  unfold s12 in N13, K13. autorewrite with bst in N13, K13.
+  rewrite (cue_noout _ _ _ _ No13). split; [|reflexivity].
+  apply (frame_finish (loop_B s) s (loop_s6 s k e true)); [exact M6| |apply loop_B_ok|autorewrite with bst; congruence|autorewrite with bst; congruence
+    |lia|rewrite P1; lia|unfold loop_B; lia|apply No6; lia].
+  apply mid_connect; [exact M13| |exact C13|lia].
+  destruct K13 as [->|K13]; [left; right; right; reflexivity|right; rewrite P1; unfold elseb in *; lia].
+Qed.
+
+
+(* entering a statement that starts with a fresh block: [cur -> next s] is the only new edge *)
+Lemma noout_entry s t0 :
+  wf s -> edges t0 = edges s ++ [(cur s, next s, ENormal)] -> forall p, next s <= p -> noout t0 p.
+Proof.
+  intros W E p Hp u v t Hin. rewrite E in Hin. apply in_app_or in Hin. destruct Hin as [Hin|[Heq|[]]].
+  - pose proof (wf_bnd _ W u v t Hin). lia.
+  - inversion Heq; subst. pose proof (wf_cur _ W). lia.
+Qed.
+
+Lemma F_with k body : F_block body -> F_stmt (With k body).
+Proof.
+  intros Fb s W. open_stmt. open_stmt'. bsimp.
+  pose proof (wf_cur _ W) as Wc. pose proof (wf_wfb _ W) as Wb.
+  set (t0 := nb (nb (nb (add_stmt (connect (nb s) (cur s) (next s) ENormal) (next s) (mk k (end_stmt (With k body)) KOther))))) in *.
+  set (B := fun u => u = next s \/ u = N.succ (next s) \/ u = N.succ (N.succ (next s))).
+  assert (M0 : mid (eq (cur s)) s t0).
+  { repeat apply mid_nb. apply mid_add_stmt. apply mid_connect; [apply mid_nb, mid_refl; exact W|left; reflexivity|ulia|ulia]. }
+  assert (Wb0 : wfb t0) by (apply (wfb_mid _ _ _ M0 Wb); reflexivity).
+  assert (No0 : forall p, next s <= p -> noout t0 p) by (apply noout_entry; [exact W|reflexivity]).
+  assert (Hn0 : next t0 = N.succ (N.succ (N.succ (N.succ (next s))))) by reflexivity.
+  set (s7 := connect t0 (next s) (N.succ (next s)) ENormal) in *.
+  assert (M7 : mid B t0 s7) by (apply mid_connect; [apply mid_refl_b; exact Wb0|left; left; reflexivity|lia|lia]).
+  destruct (sub_block B t0 s7 (N.succ (next s)) body M7 Wb0 eq_refl eq_refl Fb) as (M8 & L8 & X8 & C8 & N8 & K8 & No8 & Np8 & Q8).
+  { unfold s7. autorewrite with bst. lia. }
+  { apply noout_connect; [apply No0; lia|lia]. }
+  { left. right. left. reflexivity. }
+  rewrite <- Es8u in M8, L8, X8, C8, N8, K8, No8, Np8, Q8. rewrite <- Es8p in Q8. clear Es8u Es8p. subst s8p.
+  unfold s7 in N8, K8. autorewrite with bst in N8, K8. rewrite Hn0 in N8, K8.
+  rewrite (cue_noout _ _ _ _ No8). split; [|reflexivity].
+  apply (frame_finish B s t0); [exact M0| | |autorewrite with bst; exact L8|autorewrite with bst; exact X8|lia|lia|unfold B; lia|apply No0; lia].
+  - apply mid_connect; [apply mid_connect; [apply mid_connect; [exact M8| |exact C8|lia]| |ulia|ulia]| |ulia|ulia].
+    + destruct K8 as [->|K8]; [left; right; left; reflexivity|right; lia].
+    + left. left. reflexivity.
+    + left. right. right. reflexivity.
+  - intros u [->|[->| ->]]; right; lia.
+Qed.
+
+Lemma F_class k nm body : F_block body -> F_stmt (Class k nm body).
+Proof.
+  intros Fb s W. open_stmt. open_stmt'. bsimp.
+  pose proof (wf_cur _ W) as Wc. pose proof (wf_wfb _ W) as Wb.
+  set (t0 := add_stmt (set_cur (connect (nb s) (cur s) (next s) ENormal) (next s)) (next s) (mk k (end_stmt (Class k nm body)) KOther)).
+  assert (M0 : mid (eq (cur s)) s t0).
+  { apply mid_add_stmt, mid_set_cur. apply mid_connect; [apply mid_nb, mid_refl; exact W|left; reflexivity|ulia|ulia]. }
+  assert (W0 : wf t0).
+  { apply (wf_same _ _ _ M0 W); [unfold t0; ulia|reflexivity|reflexivity|]. apply (noout_entry s); [exact W|reflexivity|]. unfold t0. ulia. }
+  destruct (Fb t0 W0) as (F & Q). split; [|exact Q].
+  pose proof F as [M' L' E' C' K']. split.
+  - apply (mid_trans _ s t0); [exact M0|exact M'|right; unfold t0; ulia].
+  - exact L'.
+  - exact E'.
+  - exact C'.
+  - right. pose proof (wf_frame _ _ W0 F) as W'. split; [|apply W'].
+    unfold t0 in *. destruct K' as [(K1 & _)|(K1 & _)]; [rewrite K1; ulia|autorewrite with bst in K1; lia].
+Qed.
+
+Lemma F_cases_nil : F_cases ANil.
+Proof. intros s mb merge Wb Hm Hg. cbn. split; [apply mid_refl_b; exact Wb|repeat split]. Qed.
+
+Lemma F_cases_cons k b r : F_block b -> F_cases r -> F_cases (ACons k b r).
+Proof.
+  intros Fb Fr s mb merge Wb Hm Hg. cbv zeta.
+  cbn beta iota delta [process_cases process_cases'] fix match. peel_all ident:(u). bsimp.
+  set (t2 := add_stmt (connect (nb s) mb (next s) ECondTrue) (next s) (mk k (N.max k (end_block b)) KOther)) in *.
+  change (s4u = process_block (set_cur t2 (next s)) b) in Es4u.
+  change (s4u0 = process_block' (set_cur t2 (next s)) b) in Es4u0.
+  assert (M2 : mid (eq mb) s t2) by (apply mid_add_stmt, mid_connect; [apply mid_nb, mid_refl_b; exact Wb|left; reflexivity|ulia|ulia]).
+  destruct (sub_block (eq mb) s t2 (next s) b M2 Wb eq_refl eq_refl Fb) as (M4 & L4 & X4 & C4 & N4 & K4 & No4 & Np4 & Q4).
+  { unfold t2. autorewrite with bst. lia. }
+  { apply (noout_edges_eq (connect (nb s) mb (next s) ECondTrue)); [reflexivity|]. apply noout_connect; [|lia].
+    apply (noout_edges_eq s); [reflexivity|]. apply noout_fresh_b; [exact Wb|lia]. }
+  { right. lia. }
+  rewrite <- Es4u in M4, L4, X4, C4, N4, K4, No4, Np4, Q4. rewrite <- Es4u0 in Q4. clear Es4u Es4u0. subst s4u0.
+  unfold t2 in N4, K4. autorewrite with bst in N4, K4.
+  rewrite (cue_noout _ _ _ _ No4).
+  set (s5 := connect s4u (cur s4u) merge ENormal).
+  assert (M5 : mid (eq mb) s s5) by (apply mid_connect; [exact M4|right; lia|exact C4|lia]).
+  destruct (Fr s5 mb merge) as (M6 & L6 & X6 & Q6); [apply (wfb_mid _ _ _ M5 Wb); assumption|unfold s5; ulia|unfold s5; ulia|].
+  split; [|split; [|split]].
+  - apply (mid_transA _ (eq mb) s s5); [exact M5|exact M6|]. intros u <-. left. reflexivity.
+  - rewrite L6. exact L4.
+  - rewrite X6. exact X4.
+  - exact Q6.
+Qed.
+
+Lemma F_match_nil k : F_stmt (Match k ANil).
+Proof.
+  intros s W. open_stmt. open_stmt'. bsimp. split; [|reflexivity].
+  pose proof (wf_cur _ W) as Wc. pose proof (wf_wfb _ W) as Wb.
+  set (t0 := nb (add_stmt (connect (nb s) (cur s) (next s) ENormal) (next s) (mk k (end_stmt (Match k ANil)) KOther))).
+  assert (M0 : mid (eq (cur s)) s t0).
+  { apply mid_nb, mid_add_stmt, mid_connect; [apply mid_nb, mid_refl; exact W|left; reflexivity|ulia|ulia]. }
+  apply (frame_finish (eq (next s)) s t0); [exact M0| | |reflexivity|reflexivity|lia|unfold t0; ulia|lia|].
+  - apply mid_connect; [apply mid_refl_b, (wfb_mid _ _ _ M0 Wb); reflexivity|left; reflexivity|unfold t0; ulia|unfold t0; ulia].
+  - intros u <-. right. lia.
+  - apply (noout_entry s); [exact W|reflexivity|lia].
+Qed.
+
+Lemma F_match_cons k k1 b1 r : F_cases (ACons k1 b1 r) -> F_stmt (Match k (ACons k1 b1 r)).
+Proof.
+  intros Fc s W. open_stmt. open_stmt'. bsimp.
+  pose proof (wf_cur _ W) as Wc. pose proof (wf_wfb _ W) as Wb.
+  set (t0 := nb (add_stmt (connect (nb s) (cur s) (next s) ENormal) (next s) (mk k (end_stmt (Match k (ACons k1 b1 r))) KOther))) in *.
+  assert (M0 : mid (eq (cur s)) s t0).
+  { apply mid_nb, mid_add_stmt, mid_connect; [apply mid_nb, mid_refl; exact W|left; reflexivity|ulia|ulia]. }
+  assert (Wb0 : wfb t0) by (apply (wfb_mid _ _ _ M0 Wb); reflexivity).
+  destruct (Fc t0 (next s) (N.succ (next s)) Wb0) as (M1 & L1 & X1 & Q1); [unfold t0; ulia|unfold t0; ulia|].
+  rewrite <- Etu in M1, L1, X1, Q1. rewrite <- Etp in Q1. clear Etu Etp. subst tp. split; [|reflexivity].
+  pose proof (m_next _ _ _ M1) as N1. unfold t0 in N1. autorewrite with bst in N1.
+  apply (frame_finish (eq (next s)) s t0); [exact M0| | |autorewrite with bst; exact L1|autorewrite with bst; exact X1|lia|unfold t0; ulia|lia|].
+  - apply mid_connect; [exact M1|left; reflexivity|lia|lia].
+  - intros u <-. right. lia.
+  - apply (noout_entry s); [exact W|reflexivity|lia].
+Qed.
+
+Ltac nbs := repeat match goal with |- context [new_block ?t] => rewrite (new_block_eq t); cbv beta iota end.
+
+Lemma comp_clauses_spec k cl : forall s prev, wfb s -> prev < next s ->
+  let r := comp_clauses s k cl prev in
+  mid (eq prev) s (snd r) /\ loops (snd r) = loops s /\ excs (snd r) = excs s /\ cur (snd r) = cur s /\
+  (fst r = prev \/ next s <= fst r) /\ fst r < next (snd r).
+Proof.
+  induction cl as [|nifs cl IH]; intros s prev Wb Hp.
+  - cbn. split; [apply mid_refl_b; exact Wb|]. repeat split; [left; reflexivity|exact Hp].
+  - cbn [comp_clauses]. nbs. cbv zeta.
+    set (s5 := connect (nb (add_stmt (connect (nb s) prev (next s) ENormal) (next s) (mk k k KOther))) (next s) (N.succ (next s)) ECondTrue).
+    assert (M5 : mid (eq prev) s s5).
+    { apply mid_connect; [apply mid_nb, mid_add_stmt, mid_connect; [apply mid_nb, mid_refl_b; exact Wb|left; reflexivity|ulia|ulia]|right; lia|ulia|ulia]. }
+    destruct (Nat.ltb 0 nifs).
+    + autorewrite with bst.
+      match goal with |- context [comp_clauses ?t k cl (next s)] => set (s6 := t) end.
+      assert (M6 : mid (eq prev) s s6).
+      { unfold s6. unfold s5 in M5. autorewrite with bst.
+        apply mid_connect; [apply mid_add_stmt, mid_connect; [apply mid_connect; [apply mid_nb, mid_add_stmt, mid_connect; [apply mid_nb; exact M5| | |]| | |]| | |]| | |];
+          autorewrite with bst; try (right; lia); try lia. }
+      destruct (IH s6 (next s)) as (I1 & I2 & I3 & I4 & I5 & I6); [apply (wfb_mid _ _ _ M6 Wb); reflexivity|unfold s6; ulia|].
+      assert (N6 : next s6 = N.succ (N.succ (N.succ (N.succ (next s))))) by (unfold s6; ulia).
+      split; [|repeat split; try assumption].
+      * apply (mid_transA _ (eq (next s)) s s6); [exact M6|exact I1|]. intros u <-. right. lia.
+      * right. destruct I5 as [-> | I5]; lia.
+    + autorewrite with bst.
+      match goal with |- context [comp_clauses ?t k cl (next s)] => set (s6 := t) end.
+      assert (M6 : mid (eq prev) s s6).
+      { unfold s6. unfold s5 in M5.
+        apply mid_connect; [apply mid_connect; [apply mid_nb, mid_add_stmt; exact M5| | |]| | |];
+          autorewrite with bst; try (right; lia); try lia. }
+      destruct (IH s6 (next s)) as (I1 & I2 & I3 & I4 & I5 & I6); [apply (wfb_mid _ _ _ M6 Wb); reflexivity|unfold s6; ulia|].
+      assert (N6 : next s6 = N.succ (N.succ (N.succ (next s)))) by (unfold s6; ulia).
+      split; [|repeat split; try assumption].
+      * apply (mid_transA _ (eq (next s)) s s6); [exact M6|exact I1|]. intros u <-. right. lia.
+      * right. destruct I5 as [-> | I5]; lia.
+Qed.
+
+Lemma F_comp k cl : F_stmt (Comp k cl).
+Proof.
+  intros s W. split; [|reflexivity]. cbn [process_stmt]. unfold process_comp.
+  nbs. cbv zeta. autorewrite with bst.
+  pose proof (wf_cur _ W) as Wc. pose proof (wf_wfb _ W) as Wb.
+  set (t0 := nb (add_stmt (connect (nb s) (cur s) (next s) ENormal) (next s) (mk k k KOther))).
+  assert (M0 : mid (eq (cur s)) s t0).
+  { apply mid_nb, mid_add_stmt, mid_connect; [apply mid_nb, mid_refl; exact W|left; reflexivity|ulia|ulia]. }
+  assert (Wb0 : wfb t0) by (apply (wfb_mid _ _ _ M0 Wb); reflexivity).
+  destruct (comp_clauses_spec k cl t0 (next s) Wb0) as (I1 & I2 & I3 & I4 & I5 & I6); [unfold t0; ulia|].
+  destruct (comp_clauses t0 k cl (next s)) as [last s5]. cbn [fst snd] in *.
+  pose proof (m_next _ _ _ I1) as N5. assert (N0 : next t0 = N.succ (N.succ (next s))) by reflexivity.
+  match goal with |- frame s (add_stmt (set_cur ?t ?c) _ _) => set (s6 := t) end.
+  assert (M6 : mid (eq (next s)) t0 s6).
+  { unfold s6. destruct (N.eqb last (next s)) eqn:El.
+    - apply mid_connect; [exact I1|left; reflexivity|lia|lia].
+    - apply N.eqb_neq in El. apply mid_connect; [exact I1|right; lia|lia|lia]. }
+  assert (L6 : loops s6 = loops s) by (unfold s6; destruct (N.eqb last (next s)); autorewrite with bst; exact I2).
+  assert (X6 : excs s6 = excs s) by (unfold s6; destruct (N.eqb last (next s)); autorewrite with bst; exact I3).
+  pose proof (m_next _ _ _ M6) as N6.
+  split.
+  - apply mid_add_stmt, mid_set_cur. apply (mid_transA _ (eq (next s)) s t0); [exact M0|exact M6|]. intros u <-. right. lia.
+  - exact L6.
+  - exact X6.
+  - autorewrite with bst. lia.
+  - right. autorewrite with bst. split; [lia|]. apply (noout_edges_eq s6); [reflexivity|].
+    apply (noout_mid (eq (next s)) t0); [apply (noout_entry s); [exact W|reflexivity|lia]|exact M6|lia|lia].
+Qed.
+
+Lemma F_block_nil : F_block BNil.
+Proof. intros s W. split; [apply frame_refl; exact W|reflexivity]. Qed.
+
+Lemma F_block_cons x b : F_stmt x -> F_block b -> F_block (BCons x b).
+Proof.
+  intros Fx Fb s W. destruct (Fx s W) as (F1 & Q1). pose proof (wf_frame _ _ W F1) as W1.
+  destruct (Fb _ W1) as (F2 & Q2). cbn [process_block process_block']. split.
+  - eapply frame_trans; eauto.
+  - rewrite Q2, Q1. reflexivity.
+Qed.
+
+Lemma new_blocks_spec n : forall s, wfb s ->
+  let r := new_blocks s n in
+  next (snd r) = next s + N.of_nat n /\ cur (snd r) = cur s /\ loops (snd r) = loops s /\ excs (snd r) = excs s /\
+  edges (snd r) = edges s /\ (forall A, mid A s (snd r)) /\ NoDup (fst r) /\
+  (forall h, In h (fst r) <-> next s <= h < next s + N.of_nat n).
+Proof.
+  induction n as [|n IH]; intros s Wb.
+  - cbn. split; [lia|]. do 4 (split; [reflexivity|]). split; [intro A; apply mid_refl_b; exact Wb|]. split; [constructor|]. intro h. lia.
+  - cbn [new_blocks]. rewrite new_block_eq.
+    assert (Wn : wfb (nb s)) by (apply (wfb_mid (eq 0) s); [apply mid_nb, mid_refl_b; exact Wb|exact Wb|reflexivity|reflexivity]).
+    specialize (IH (nb s) Wn). destruct (new_blocks (nb s) n) as [l s2]. cbn [fst snd] in *.
+    destruct IH as (I1 & I2 & I3 & I4 & I5 & I6 & I7 & I8). autorewrite with bst in *.
+    split; [lia|]. do 4 (split; [assumption|]). split; [|split].
+    + intro A. apply (mid_transA A A s (nb s)); [apply mid_nb, mid_refl_b; exact Wb|apply I6|]. intros u Hu. left. exact Hu.
+    + constructor; [|exact I7]. intro Hin. apply I8 in Hin. lia.
+    + intro h. split.
+      * intros [<-|Hin]; [lia|]. apply I8 in Hin. lia.
+      * intros (H1 & H2). destruct (N.eq_dec h (next s)) as [->|Hne]; [left; reflexivity|right; apply I8; lia].
+Qed.
+
+(* the propagation edges out of a finally block (cfg_builder.go, processTryStatement) *)
+Definition fin_prop (t4 : st) (f : N) : st :=
+  let outer := tl (excs t4) in
+  let next_outer := first_finally outer in
+  let t5 := match next_outer with
+            | Some o => connect_unless t4 f o EReturn
+            | None => connect_unless t4 f exit_id EReturn
+            end in
+  let t6 := match loops t5 with
+            | l :: _ =>
+                if Nat.leb (l_excdepth l) (length (excs t5) - 1) then
+                  let next_loop := first_finally (firstn (length outer - l_excdepth l) outer) in
+                  match next_loop with
+                  | Some o => connect_unless (connect_unless t5 f o EBreak) f o EContinue
+                  | None => connect_unless (connect_unless t5 f (l_exit l) EBreak) f (l_header l) EContinue
+                  end
+                else t5
+            | [] => t5
+            end in
+  match next_outer with
+  | Some o => connect_unless t6 f o EException
+  | None => match outer with
+            | oc :: _ => connect_all_unless t6 f (x_handlers oc) EException
+            | [] => connect_unless t6 f exit_id EException
+            end
+  end.
+
+Lemma cau_proj s a l t :
+  next (connect_all_unless s a l t) = next s /\ cur (connect_all_unless s a l t) = cur s /\
+  loops (connect_all_unless s a l t) = loops s /\ excs (connect_all_unless s a l t) = excs s /\
+  blocks (connect_all_unless s a l t) = blocks s.
+Proof.
+  revert s. induction l as [|x r IH]; intro s; [repeat split|]. cbn [connect_all_unless].
+  destruct (IH (connect_unless s a x t)) as (H1 & H2 & H3 & H4 & H5). autorewrite with bst in *. repeat split; assumption.
+Qed.
+
+Lemma fin_prop_spec t4 f :
+  wfb t4 -> f < next t4 ->
+  let t' := fin_prop t4 f in
+  mid (eq f) t4 t' /\ next t' = next t4 /\ cur t' = cur t4 /\ loops t' = loops t4 /\ excs t' = excs t4.
+Proof.
+  intros Wb Hf. unfold fin_prop. cbv zeta.
+  pose proof (wb_two _ Wb) as H2.
+  assert (Hout : forall x, In x (tl (excs t4)) -> In x (excs t4)) by (intros x Hx; destruct (excs t4); [destruct Hx|right; exact Hx]).
+  assert (Hff : forall xs o, first_finally xs = Some o -> (forall x, In x xs -> In x (excs t4)) -> o < next t4).
+  { intros xs o Ho Hxs. destruct (first_finally_in _ _ Ho) as (x & Hx & Hfx). destruct (wb_fin _ Wb x (Hxs x Hx)) as (Hlt & _). apply Hlt. exact Hfx. }
+  set (t5 := match first_finally (tl (excs t4)) with
+             | Some o => connect_unless t4 f o EReturn
+             | None => connect_unless t4 f exit_id EReturn
+             end).
+  assert (H5 : mid (eq f) t4 t5 /\ next t5 = next t4 /\ cur t5 = cur t4 /\ loops t5 = loops t4 /\ excs t5 = excs t4).
+  { unfold t5. destruct (first_finally (tl (excs t4))) as [o|] eqn:Eo; autorewrite with bst; (split; [|repeat split]).
+    - apply mid_connect_unless; [apply mid_refl_b; exact Wb|left; reflexivity|exact Hf|exact (Hff _ o Eo Hout)].
+    - apply mid_connect_unless; [apply mid_refl_b; exact Wb|left; reflexivity|exact Hf|unfold exit_id; lia]. }
+  destruct H5 as (M5 & N5 & C5 & L5 & X5).
+  match goal with |- context [connect_unless ?t f _ EException] => set (t6 := t) end.
+  assert (H6 : mid (eq f) t4 t6 /\ next t6 = next t4 /\ cur t6 = cur t4 /\ loops t6 = loops t4 /\ excs t6 = excs t4).
+  { unfold t6. rewrite L5. destruct (loops t4) as [|l ls] eqn:El; [split; [assumption|repeat split; assumption]|].
+    destruct (wb_loops _ Wb l) as (Hl1 & Hl2 & _); [rewrite El; left; reflexivity|].
+    destruct (Nat.leb _ _); [|split; [assumption|repeat split; assumption]].
+    destruct (first_finally (firstn _ _)) as [o|] eqn:Eo; autorewrite with bst; (split; [|split; [assumption|repeat split; assumption]]).
+    - assert (Ho : o < next t4) by (apply (Hff _ o Eo); intros x Hx; apply Hout; eapply firstn_in; exact Hx).
+      apply mid_connect_unless; [apply mid_connect_unless; [exact M5|left; reflexivity|lia|lia]|left; reflexivity|ulia|ulia].
+    - apply mid_connect_unless; [apply mid_connect_unless; [exact M5|left; reflexivity|lia|lia]|left; reflexivity|ulia|ulia]. }
+  destruct H6 as (M6 & N6 & C6 & L6 & X6). clearbody t6. clear t5 M5 N5 C5 L5 X5.
+  destruct (first_finally (tl (excs t4))) as [o|] eqn:Eo.
+  - autorewrite with bst. split; [|split; [assumption|repeat split; assumption]].
+    apply mid_connect_unless; [exact M6|left; reflexivity|lia|rewrite N6; exact (Hff _ o Eo Hout)].
+  - destruct (tl (excs t4)) as [|oc ocs] eqn:Et.
+    + autorewrite with bst. split; [|split; [assumption|repeat split; assumption]].
+      apply mid_connect_unless; [exact M6|left; reflexivity|lia|unfold exit_id; lia].
+    + destruct (cau_proj t6 f (x_handlers oc) EException) as (P1 & P2 & P3 & P4 & _).
+      split; [|repeat split; congruence].
+      apply mid_connect_all_unless; [exact M6|left; reflexivity|lia|].
+      intros b Hb. rewrite N6. destruct (wb_fin _ Wb oc) as (_ & Hh); [apply Hout; try rewrite Et; left; reflexivity|]. apply Hh. exact Hb.
+Qed.
+
+Lemma F_handlers_nil : F_handlers ANil.
+Proof. intros s hbs nxt Wb ND Hh Hn. cbn. split; [apply mid_refl_b; exact Wb|repeat split]. Qed.
+
+Lemma F_handlers_cons k b r : F_block b -> F_handlers r -> F_handlers (ACons k b r).
+Proof.
+  intros Fb Fr s hbs nxt Wb ND Hh Hn. destruct hbs as [|hb hbr].
+  { cbn. split; [apply mid_refl_b; exact Wb|repeat split]. }
+  cbv zeta. cbn beta iota delta [process_handlers process_handlers'] fix match. peel_all ident:(u). bsimp.
+  set (X := mk k (N.max k (end_block b)) KOther) in *.
+  change (s2u = process_block (set_cur (add_stmt s hb X) hb) b) in Es2u.
+  change (s2u0 = process_block' (set_cur (add_stmt s hb X) hb) b) in Es2u0.
+  destruct (Hh hb (or_introl eq_refl)) as (Hb1 & Hb2).
+  assert (M1 : mid (fun u => In u (hb :: hbr)) s (add_stmt s hb X)) by (apply mid_add_stmt, mid_refl_b; exact Wb).
+  destruct (sub_block _ s _ hb b M1 Wb eq_refl eq_refl Fb) as (M2 & L2 & X2 & C2 & N2 & K2 & No2 & Np2 & Q2).
+  { exact Hb1. }
+  { apply (noout_edges_eq s); [reflexivity|exact Hb2]. }
+  { left. left. reflexivity. }
+  rewrite <- Es2u in M2, L2, X2, C2, N2, K2, No2, Np2, Q2. rewrite <- Es2u0 in Q2. clear Es2u Es2u0. subst s2u0.
+  autorewrite with bst in N2, K2, Np2.
+  rewrite (cue_noout _ _ _ _ No2).
+  set (s3 := connect s2u (cur s2u) nxt ENormal).
+  assert (M3 : mid (fun u => In u (hb :: hbr)) s s3).
+  { apply mid_connect; [exact M2| |exact C2|lia]. destruct K2 as [->|K2]; [left; left; reflexivity|right; exact K2]. }
+  inversion ND as [|? ? Hnin ND']; subst.
+  destruct (Fr s3 hbr nxt) as (M4 & L4 & X4 & Q4).
+  - apply (wfb_mid _ _ _ M3 Wb); assumption.
+  - exact ND'.
+  - intros h Hin. destruct (Hh h (or_intror Hin)) as (H1 & H2). split; [unfold s3; ulia|].
+    apply noout_connect.
+    + apply Np2; [apply (noout_edges_eq s); [reflexivity|exact H2]|exact H1|]. intros ->. exact (Hnin Hin).
+    + destruct K2 as [->|K2]; [intros ->; exact (Hnin Hin)|lia].
+  - unfold s3. ulia.
+  - split; [|split; [|split]].
+    + apply (mid_transA _ (fun u => In u hbr) s s3); [exact M3|exact M4|]. intros u Hu. left. right. exact Hu.
+    + rewrite L4. exact L2.
+    + rewrite X4. exact X2.
+    + exact Q4.
+Qed.
+
+Lemma noout_connect_all s p a l t : noout s p -> a <> p -> noout (connect_all s a l t) p.
+Proof.
+  revert s. induction l as [|x r IH]; intros s No Hne; [exact No|]. cbn [connect_all]. apply IH; [|exact Hne].
+  apply noout_connect; assumption.
+Qed.
+
+Definition try_B (tryb : N) (hbs : list N) (u : N) : Prop := u = tryb \/ In u hbs.
+
+(* try body, its normal exit, the exception edges to the handlers, the handlers *)
+Lemma try_body_spec t7 tryb hbs nat afe body handlers s8 s11 s8p s11p :
+  wfb t7 -> tryb < next t7 -> noout t7 tryb -> NoDup hbs ->
+  (forall h, In h hbs -> h < next t7 /\ noout t7 h /\ h <> tryb) -> nat < next t7 -> afe < next t7 ->
+  F_block body -> F_handlers handlers ->
+  s8 = process_block (set_cur t7 tryb) body ->
+  s11 = process_handlers (connect_all (connect_unless_exit s8 (cur s8) nat ENormal) tryb hbs EException) handlers hbs afe ->
+  s8p = process_block' (set_cur t7 tryb) body ->
+  s11p = process_handlers' (connect_all (connect s8p (cur s8p) nat ENormal) tryb hbs EException) handlers hbs afe ->
+  mid (try_B tryb hbs) t7 s11 /\ loops s11 = loops t7 /\ excs s11 = excs t7 /\ s11 = s11p.
+Proof.
+  intros Wb Ht Not ND Hh Hnat Hafe Fb Fh E8 E11 E8p E11p.
+  destruct (sub_block (try_B tryb hbs) t7 t7 tryb body (mid_refl_b _ _ Wb) Wb eq_refl eq_refl Fb Ht Not) as (M8 & L8 & X8 & C8 & N8 & K8 & No8 & Np8 & Q8).
+  { left. left. reflexivity. }
+  rewrite <- E8 in M8, L8, X8, C8, N8, K8, No8, Np8, Q8. rewrite <- E8p in Q8. clear E8 E8p. subst s8p.
+  rewrite (cue_noout _ _ _ _ No8) in E11.
+  set (s10 := connect_all (connect s8 (cur s8) nat ENormal) tryb hbs EException) in *.
+  assert (M10 : mid (try_B tryb hbs) t7 s10).
+  { apply mid_connect_all; [apply mid_connect; [exact M8| |exact C8|lia]|left; left; reflexivity|ulia|].
+    - destruct K8 as [->|K8]; [left; left; reflexivity|right; exact K8].
+    - intros h Hin. destruct (Hh h Hin) as (H1 & _). ulia. }
+  assert (N10 : next s10 = next s8) by (unfold s10; ulia).
+  destruct (Fh s10 hbs afe) as (M11 & L11 & X11 & Q11).
+  - apply (wfb_mid _ _ _ M10 Wb); unfold s10; autorewrite with bst; assumption.
+  - exact ND.
+  - intros h Hin. destruct (Hh h Hin) as (H1 & H2 & H3). split; [lia|].
+    apply noout_connect_all; [|congruence]. apply noout_connect.
+    + apply Np8; assumption.
+    + destruct K8 as [->|K8]; [congruence|lia].
+  - lia.
+  - rewrite <- E11 in M11, L11, X11, Q11. rewrite <- E11p in Q11. split; [|split; [|split]].
+    + apply (mid_transA _ (fun u => In u hbs) t7 s10); [exact M10|exact M11|]. intros u Hu. left. right. exact Hu.
+    + rewrite L11. unfold s10. autorewrite with bst. exact L8.
+    + rewrite X11. unfold s10. autorewrite with bst. exact X8.
+    + exact Q11.
+Qed.
+
+Ltac open_try :=
+  cbn beta iota delta [process_stmt process_stmt'] fix match; peel_all ident:(u);
+  match goal with |- context [new_blocks ?t ?n] =>
+    let hbs := fresh "hbs" in let s6 := fresh "s6" in let Enb := fresh "Enb" in
+    destruct (new_blocks t n) as [hbs s6] eqn:Enb end;
+  cbv beta iota; peel_all ident:(u).
+
+Definition try_B' (s : st) (u : N) : Prop := next s <= u /\ u <> N.succ (next s).
+
+Lemma try_setup s t5 n finb hbs s6 :
+  wf s -> mid (eq (cur s)) s t5 -> edges t5 = edges s ++ [(cur s, next s, ENormal)] -> loops t5 = loops s -> excs t5 = excs s ->
+  N.succ (next s) < next t5 -> (forall f, finb = Some f -> f < next t5) -> new_blocks t5 n = (hbs, s6) ->
+  let ctx := {| x_finally := finb; x_handlers := hbs; x_processing := false |} in
+  let t7 := set_excs s6 (ctx :: excs s6) in
+  mid (eq (cur s)) s t7 /\ wfb t7 /\ next t7 = next t5 + N.of_nat n /\ loops t7 = loops s /\ excs t7 = ctx :: excs s /\
+  (forall p, next s <= p -> noout t7 p) /\ NoDup hbs /\ (forall h, In h hbs <-> next t5 <= h < next t7).
+Proof.
+  intros W M5 E5 L5 X5 H5 Hf Enb ctx t7. pose proof (wf_wfb _ W) as Wb.
+  assert (Wb5 : wfb t5) by (apply (wfb_mid _ _ _ M5 Wb); assumption).
+  pose proof (new_blocks_spec n t5 Wb5) as Hs. rewrite Enb in Hs. cbn [fst snd] in Hs.
+  destruct Hs as (I1 & I2 & I3 & I4 & I5 & I6 & I7 & I8).
+  assert (M7 : mid (eq (cur s)) s t7).
+  { apply mid_set_excs. apply (mid_transA _ (eq (cur s)) s t5); [exact M5|apply I6|]. intros u <-. left. reflexivity. }
+  assert (N7 : next t7 = next t5 + N.of_nat n) by exact I1.
+  assert (X7 : excs t7 = ctx :: excs s) by (unfold t7; autorewrite with bst; rewrite I4, X5; reflexivity).
+  pose proof (m_next _ _ _ M5) as Hn5.
+  split; [exact M7|]. split; [|split; [exact N7|split; [|split; [exact X7|split; [|split; [exact I7|]]]]]].
+  - split.
+    + pose proof (wb_two _ Wb). lia.
+    + apply M7.
+    + apply M7.
+    + rewrite X7. intros x [<-|Hx].
+      * cbn [x_finally x_handlers ctx]. split; [intros f Hfe; specialize (Hf f Hfe); lia|]. intros h Hh. apply I8 in Hh. lia.
+      * destruct (wb_fin _ Wb x Hx) as (H1 & H2). split; intros; [specialize (H1 _ H)|specialize (H2 _ H)]; lia.
+    + rewrite X7. unfold t7. autorewrite with bst. rewrite I3, L5. intros l Hl.
+      destruct (wb_loops _ Wb l Hl) as (H1 & H2 & H3). cbn [length]. repeat split; lia.
+  - unfold t7. autorewrite with bst. rewrite I3. exact L5.
+  - intros p Hp. apply (noout_edges_eq t5); [unfold t7; autorewrite with bst; exact I5|]. apply (noout_entry s); assumption.
+  - intro h. rewrite N7. apply I8.
+Qed.
+
+Lemma try_B_weaken s t5 t7 hbs sf :
+  N.succ (next s) < next t5 -> (forall h, In h hbs <-> next t5 <= h < next t7) ->
+  mid (try_B (next s) hbs) t7 sf -> mid (try_B' s) t7 sf.
+Proof.
+  intros H5 Hh M. apply (mid_weaken (try_B (next s) hbs)); [|exact M].
+  intros u [->|Hin]; left; unfold try_B'; [lia|]. apply Hh in Hin. lia.
+Qed.
+
+(* leaving the try statement: pop the exception context, continue in the exit block *)
+Lemma try_finish s t7 sf x :
+  wf s -> mid (eq (cur s)) s t7 -> (forall p, next s <= p -> noout t7 p) -> N.succ (next s) < next t7 ->
+  mid (try_B' s) t7 sf -> loops sf = loops s -> excs sf = x :: excs s ->
+  frame s (set_cur (set_excs sf (tl (excs sf))) (N.succ (next s))).
+Proof.
+  intros W M7 No7 H7 Mf Lf Xf. rewrite Xf. cbn [tl].
+  apply (frame_finish (try_B' s) s t7); [exact M7|apply mid_set_excs; exact Mf| |exact Lf|reflexivity|lia|lia| |apply No7; lia].
+  - intros u (Hu & _). right. exact Hu.
+  - unfold try_B'. lia.
+Qed.
+
+Lemma F_try_nn k body hs : F_block body -> F_handlers hs -> F_stmt (Try k body hs ONone ONone).
+Proof.
+  intros Fb Fh s W. open_try. bsimp.
+  pose proof (wf_cur _ W) as Wc.
+  set (t5 := nb (connect (nb s) (cur s) (next s) ENormal)) in *.
+  assert (M5 : mid (eq (cur s)) s t5) by (apply mid_nb, mid_connect; [apply mid_nb, mid_refl; exact W|left; reflexivity|ulia|ulia]).
+  destruct (try_setup s t5 (arms_length hs) None hbs s6 W M5 eq_refl eq_refl eq_refl) as (M7 & Wb7 & N7 & L7 & X7 & No7 & ND & Hh); [unfold t5; ulia|discriminate|exact Enb|].
+  assert (N5 : next t5 = N.succ (N.succ (next s))) by reflexivity.
+  set (t7 := set_excs s6 ({| x_finally := None; x_handlers := hbs; x_processing := false |} :: excs s6)) in *.
+  destruct (try_body_spec t7 (next s) hbs (N.succ (next s)) (N.succ (next s)) body hs s8u s11u s8u0 s11u0 Wb7) as (M11 & L11 & X11 & Q11);
+    try assumption; try lia.
+  { apply No7. lia. }
+  { intros h Hin. apply Hh in Hin. split; [lia|split; [apply No7; lia|lia]]. }
+  rewrite <- Q11. split; [|reflexivity].
+  eapply (try_finish s t7 s11u); [exact W|exact M7|exact No7|lia| |congruence|rewrite X11; exact X7].
+  apply (try_B_weaken s t5 t7 hbs); [lia|exact Hh|exact M11].
+Qed.
+
+Lemma try_else_spec s t7 s11 elseb afe eb t1 t1p :
+  wfb t7 -> mid (try_B' s) t7 s11 -> loops s11 = loops t7 -> excs s11 = excs t7 ->
+  next s <= elseb -> elseb < next t7 -> elseb <> N.succ (next s) -> noout s11 elseb -> afe < next t7 -> F_block eb ->
+  t1 = process_block (set_cur s11 elseb) eb -> t1p = process_block' (set_cur s11 elseb) eb ->
+  let s12 := connect_unless_exit t1 (cur t1) afe ENormal in
+  mid (try_B' s) t7 s12 /\ loops s12 = loops t7 /\ excs s12 = excs t7 /\ t1 = t1p /\ s12 = connect t1 (cur t1) afe ENormal /\
+  (forall p, noout s11 p -> p < next s11 -> p <> elseb -> noout s12 p).
+Proof.
+  intros Wb M11 L11 X11 He1 He2 He3 Noe Hafe Fe E1 E1p s12.
+  pose proof (m_next _ _ _ M11) as N11.
+  destruct (sub_block (try_B' s) t7 s11 elseb eb M11 Wb L11 X11 Fe) as (M1 & L1 & X1 & C1 & N1 & K1 & No1 & Np1 & Q1);
+    [lia|exact Noe|left; split; assumption|].
+  rewrite <- E1 in M1, L1, X1, C1, N1, K1, No1, Np1, Q1. rewrite <- E1p in Q1. clear E1 E1p. subst t1p.
+  unfold s12. rewrite (cue_noout _ _ _ _ No1). autorewrite with bst.
+  split; [|split; [exact L1|split; [exact X1|split; [reflexivity|split; [reflexivity|]]]]].
+  - apply mid_connect; [exact M1| |exact C1|lia]. destruct K1 as [->|K1]; [left; split; assumption|right; lia].
+  - intros p Hp1 Hp2 Hp3. apply noout_connect; [apply Np1; assumption|]. destruct K1 as [->|K1]; [congruence|lia].
+Qed.
+
+Lemma set_processing_eq t p x r :
+  excs t = x :: r ->
+  set_processing t p = set_excs t ({| x_finally := x_finally x; x_handlers := x_handlers x; x_processing := p |} :: r).
+Proof. intro E. unfold set_processing. rewrite E. reflexivity. Qed.
+
+Lemma wfb_set_proc t p x r :
+  wfb t -> excs t = x :: r ->
+  wfb (set_excs t ({| x_finally := x_finally x; x_handlers := x_handlers x; x_processing := p |} :: r)).
+Proof.
+  intros [W1 W2 W3 W4 W5] E. split; autorewrite with bst; try assumption.
+  - intros y [<-|Hy]; cbn [x_finally x_handlers]; apply W4; rewrite E; [left; reflexivity|right; exact Hy].
+  - rewrite E in W5. exact W5.
+Qed.
+
+Lemma try_fin_spec s t7 s12 f hbs fb t2 t2p :
+  wfb t7 -> mid (try_B' s) t7 s12 -> loops s12 = loops t7 ->
+  excs s12 = {| x_finally := Some f; x_handlers := hbs; x_processing := false |} :: excs s ->
+  excs t7 = {| x_finally := Some f; x_handlers := hbs; x_processing := false |} :: excs s ->
+  next s <= f -> f < next t7 -> f <> N.succ (next s) -> noout s12 f -> N.succ (next s) < next t7 -> F_block fb ->
+  t2 = process_block (set_processing (set_cur s12 f) true) fb ->
+  t2p = process_block' (set_processing (set_cur s12 f) true) fb ->
+  let t3 := set_processing t2 false in
+  let s13 := fin_prop (connect_unless_exit t3 (cur t3) (N.succ (next s)) ENormal) f in
+  mid (try_B' s) t7 s13 /\ loops s13 = loops t7 /\
+  excs s13 = {| x_finally := Some f; x_handlers := hbs; x_processing := false |} :: excs s /\ t2 = t2p /\
+  s13 = fin_prop (connect t3 (cur t3) (N.succ (next s)) ENormal) f.
+Proof.
+  intros Wb M12 L12 X12 X7 Hf1 Hf2 Hf3 Nof Hex Ff E2 E2p t3 s13.
+  pose proof (m_next _ _ _ M12) as N12.
+  set (ctxt := {| x_finally := Some f; x_handlers := hbs; x_processing := true |}).
+  assert (Esp : set_processing (set_cur s12 f) true = set_cur (set_excs s12 (ctxt :: excs s)) f).
+  { rewrite (set_processing_eq (set_cur s12 f) true _ _ X12). reflexivity. }
+  rewrite Esp in E2, E2p.
+  set (t1 := set_excs s12 (ctxt :: excs s)) in *.
+  assert (Wb12 : wfb s12) by (apply (wfb_mid _ _ _ M12 Wb); [exact L12|congruence]).
+  assert (Wb1 : wfb t1) by (apply (wfb_set_proc s12 true _ _ Wb12 X12)).
+  destruct (sub_block (eq f) t1 t1 f fb (mid_refl_b _ _ Wb1) Wb1 eq_refl eq_refl Ff) as (M2 & L2 & X2 & C2 & N2 & K2 & No2 & Np2 & Q2);
+    [unfold t1; ulia|apply (noout_edges_eq s12); [reflexivity|exact Nof]|left; reflexivity|].
+  rewrite <- E2 in M2, L2, X2, C2, N2, K2, No2, Np2, Q2. rewrite <- E2p in Q2. clear E2 E2p. subst t2p.
+  unfold t1 in L2, X2, N2, K2. autorewrite with bst in L2, X2, N2, K2.
+  assert (E3 : t3 = set_excs t2 ({| x_finally := Some f; x_handlers := hbs; x_processing := false |} :: excs s)).
+  { unfold t3. rewrite (set_processing_eq _ false _ _ X2). reflexivity. }
+  fold t3 in s13 |- *. clearbody t3. subst t3.
+  set (t3 := set_excs t2 ({| x_finally := Some f; x_handlers := hbs; x_processing := false |} :: excs s)) in *.
+  assert (M3 : mid (try_B' s) t7 t3).
+  { apply mid_set_excs. apply (mid_transA _ (eq f) t7 t1); [apply mid_set_excs; exact M12|exact M2|]. intros u <-. left. split; assumption. }
+  assert (No3 : noout t3 (cur t3)) by (apply (noout_edges_eq t2); [reflexivity|exact No2]).
+  unfold s13. rewrite (cue_noout _ _ _ _ No3).
+  set (t4 := connect t3 (cur t3) (N.succ (next s)) ENormal).
+  assert (M4 : mid (try_B' s) t7 t4).
+  { apply mid_connect; [exact M3| |unfold t3; ulia|unfold t3; ulia].
+    unfold t3. autorewrite with bst. destruct K2 as [->|K2]; [left; split; assumption|right; lia]. }
+  assert (Wb4 : wfb t4).
+  { assert (Wb2 : wfb t2) by (apply (wfb_mid _ _ _ M2 Wb1); unfold t1; autorewrite with bst; assumption).
+    pose proof (wfb_set_proc t2 false _ _ Wb2 X2) as Wb3.
+    apply (wfb_mid (eq (cur t3)) t3); [apply mid_connect; [apply mid_refl_b; exact Wb3|left; reflexivity|unfold t3; ulia|unfold t3; ulia]|exact Wb3|reflexivity|reflexivity]. }
+  destruct (fin_prop_spec t4 f Wb4) as (M5 & N5 & C5 & L5 & X5); [unfold t4, t3; ulia|].
+  split; [|split; [|split; [|split; reflexivity]]].
+  - apply (mid_transA _ (eq f) t7 t4); [exact M4|exact M5|]. intros u <-. left. split; assumption.
+  - rewrite L5. unfold t4, t3. autorewrite with bst. congruence.
+  - rewrite X5. reflexivity.
+Qed.
+
+Lemma F_try_sn k body hs eb : F_block body -> F_handlers hs -> F_block eb -> F_stmt (Try k body hs (OSome eb) ONone).
+Proof.
+  intros Fb Fh Fe s W. open_try. bsimp.
+  pose proof (wf_cur _ W) as Wc.
+  set (t5 := nb (nb (connect (nb s) (cur s) (next s) ENormal))) in *.
+  assert (M5 : mid (eq (cur s)) s t5) by (repeat apply mid_nb; apply mid_connect; [apply mid_nb, mid_refl; exact W|left; reflexivity|ulia|ulia]).
+  destruct (try_setup s t5 (arms_length hs) None hbs s6 W M5 eq_refl eq_refl eq_refl) as (M7 & Wb7 & N7 & L7 & X7 & No7 & ND & Hh); [unfold t5; ulia|discriminate|exact Enb|].
+  assert (N5 : next t5 = N.succ (N.succ (N.succ (next s)))) by reflexivity.
+  set (t7 := set_excs s6 ({| x_finally := None; x_handlers := hbs; x_processing := false |} :: excs s6)) in *.
+  destruct (try_body_spec t7 (next s) hbs (N.succ (N.succ (next s))) (N.succ (next s)) body hs s8u s11u s8u0 s11u0 Wb7) as (M11 & L11 & X11 & Q11);
+    try assumption; try lia.
+  { apply No7. lia. }
+  { intros h Hin. apply Hh in Hin. split; [lia|split; [apply No7; lia|lia]]. }
+  rewrite <- Q11 in *. clear Q11 Es11u0.
+  assert (M11' : mid (try_B' s) t7 s11u) by (apply (try_B_weaken s t5 t7 hbs); [lia|exact Hh|exact M11]).
+  destruct (try_else_spec s t7 s11u (N.succ (N.succ (next s))) (N.succ (next s)) eb t1u t1u0 Wb7 M11' L11 X11) as (M12 & L12 & X12 & Q1 & Q12 & _);
+    try assumption; try lia.
+  { apply (noout_mid (try_B (next s) hbs) t7); [apply No7; lia|exact M11| |lia]. intros [H|H]; [lia|]. apply Hh in H. lia. }
+  clear Et1u0. subst t1u0. rewrite Q12 in *. split; [|reflexivity].
+  eapply (try_finish s t7 (connect t1u (cur t1u) (N.succ (next s)) ENormal)); [exact W|exact M7|exact No7|lia|exact M12|congruence|rewrite X12; exact X7].
+Qed.
+
+Ltac peel_step_fin sfx fblk :=
+  lazymatch goal with
+  | |- context [let (a, b) := new_block ?s in _] => rewrite (new_block_eq s); cbv beta iota
+  | |- context [let x := ?a in @?f x] =>
+      let t := constr:(let x := a in f x) in
+      let t' := eval cbv beta in t in
+      lazymatch a with
+      | tl (excs ?t4) => change t' with (fin_prop t4 fblk)
+      | _ =>
+        pattern t';
+        lazymatch goal with |- ?Q _ =>
+          let nm := fresh x sfx in let eq := fresh "E" x sfx in
+          apply (peel a f Q); intros nm eq; cbv beta;
+          tryif is_sub a then idtac else subst nm
+        end
+      end
+  end.
+Ltac open_try_fin fblk :=
+  cbn beta iota delta [process_stmt process_stmt'] fix match; peel_all ident:(u);
+  match goal with |- context [new_blocks ?t ?n] =>
+    let hbs := fresh "hbs" in let s6 := fresh "s6" in let Enb := fresh "Enb" in
+    destruct (new_blocks t n) as [hbs s6] eqn:Enb end;
+  cbv beta iota; repeat peel_step_fin ident:(u) fblk.
+
+Lemma F_try_ns k body hs fb : F_block body -> F_handlers hs -> F_block fb -> F_stmt (Try k body hs ONone (OSome fb)).
+Proof.
+  intros Fb Fh Ff s W. open_try_fin (N.succ (N.succ (next s))). bsimp.
+  pose proof (wf_cur _ W) as Wc.
+  set (f := N.succ (N.succ (next s))) in *.
+  set (t5 := nb (nb (connect (nb s) (cur s) (next s) ENormal))) in *.
+  assert (M5 : mid (eq (cur s)) s t5) by (repeat apply mid_nb; apply mid_connect; [apply mid_nb, mid_refl; exact W|left; reflexivity|ulia|ulia]).
+  destruct (try_setup s t5 (arms_length hs) (Some f) hbs s6 W M5 eq_refl eq_refl eq_refl) as (M7 & Wb7 & N7 & L7 & X7 & No7 & ND & Hh);
+    [unfold t5; ulia|intros g Hg; inversion Hg; subst g; unfold t5, f; ulia|exact Enb|].
+  assert (N5 : next t5 = N.succ (N.succ (N.succ (next s)))) by reflexivity.
+  set (t7 := set_excs s6 ({| x_finally := Some f; x_handlers := hbs; x_processing := false |} :: excs s6)) in *.
+  destruct (try_body_spec t7 (next s) hbs f f body hs s8u s11u s8u0 s11u0 Wb7) as (M11 & L11 & X11 & Q11);
+    try assumption; try (unfold f; lia).
+  { apply No7. lia. }
+  { intros h Hin. apply Hh in Hin. split; [lia|split; [apply No7; lia|lia]]. }
+  rewrite <- Q11 in *. clear Q11 Es11u0.
+  assert (M11' : mid (try_B' s) t7 s11u) by (apply (try_B_weaken s t5 t7 hbs); [lia|exact Hh|exact M11]).
+  destruct (try_fin_spec s t7 s11u f hbs fb t2u t2u0 Wb7 M11' L11) as (M13 & L13 & X13 & Q2 & Q13);
+    try assumption; try (unfold f; lia).
+  { rewrite X11. exact X7. }
+  { apply (noout_mid (try_B (next s) hbs) t7); [apply No7; unfold f; lia|exact M11| |unfold f; lia].
+    intros [H|H]; [unfold f in H; lia|]. apply Hh in H. unfold f in H. lia. }
+  clear Et2u0. subst t2u0. rewrite Q13 in *. split; [|reflexivity].
+  eapply (try_finish s t7); [exact W|exact M7|exact No7|lia|exact M13|congruence|exact X13].
+Qed.
+
+(* as [peel_step_fin], but a [let] nested in the bound term of another [let] is exposed first *)
+Ltac with_let T sfx k :=
+  lazymatch T with
+  | context [let x := ?a in @?f x] =>
+      lazymatch a with
+      | context [let y := _ in _] => with_let a sfx k
+      | _ => let nm := fresh x sfx in let eq := fresh "E" x sfx in k a f nm eq
+      end
+  end.
+Ltac peel_step_fin2 sfx fblk :=
+  lazymatch goal with
+  | |- context [let (a, b) := new_block ?s in _] => rewrite (new_block_eq s); cbv beta iota
+  | |- ?G =>
+      with_let G sfx ltac:(fun a f nm eq =>
+        let t := constr:(let x := a in f x) in
+        let t' := eval cbv beta in t in
+        lazymatch a with
+        | tl (excs ?t4) => change t' with (fin_prop t4 fblk)
+        | _ =>
+          pattern t';
+          lazymatch goal with |- ?Q _ =>
+            apply (peel a f Q); intros nm eq; cbv beta;
+            tryif is_sub a then idtac else subst nm
+          end
+        end)
+  end.
+Ltac open_try_fin2 fblk :=
+  cbn beta iota delta [process_stmt process_stmt'] fix match; peel_all ident:(u);
+  match goal with |- context [new_blocks ?t ?n] =>
+    let hbs := fresh "hbs" in let s6 := fresh "s6" in let Enb := fresh "Enb" in
+    destruct (new_blocks t n) as [hbs s6] eqn:Enb end;
+  cbv beta iota; repeat peel_step_fin2 ident:(u) fblk.
+
+Lemma F_try_ss k body hs eb fb :
+  F_block body -> F_handlers hs -> F_block eb -> F_block fb -> F_stmt (Try k body hs (OSome eb) (OSome fb)).
+Proof.
+  intros Fb Fh Fe Ff s W. open_try_fin2 (N.succ (N.succ (next s))). bsimp.
+  pose proof (wf_cur _ W) as Wc.
+  set (f := N.succ (N.succ (next s))) in *.
+  set (elseb := N.succ f) in *.
+  set (t5 := nb (nb (nb (connect (nb s) (cur s) (next s) ENormal)))) in *.
+  assert (M5 : mid (eq (cur s)) s t5) by (repeat apply mid_nb; apply mid_connect; [apply mid_nb, mid_refl; exact W|left; reflexivity|ulia|ulia]).
+  destruct (try_setup s t5 (arms_length hs) (Some f) hbs s6 W M5 eq_refl eq_refl eq_refl) as (M7 & Wb7 & N7 & L7 & X7 & No7 & ND & Hh);
+    [unfold t5; ulia|intros g Hg; inversion Hg; subst g; unfold t5, f; ulia|exact Enb|].
+  assert (N5 : next t5 = N.succ (N.succ (N.succ (N.succ (next s))))) by reflexivity.
+  set (t7 := set_excs s6 ({| x_finally := Some f; x_handlers := hbs; x_processing := false |} :: excs s6)) in *.
+  destruct (try_body_spec t7 (next s) hbs elseb f body hs s8u s11u s8u0 s11u0 Wb7) as (M11 & L11 & X11 & Q11);
+    try assumption; try (unfold elseb, f; lia).
+  { apply No7. lia. }
+  { intros h Hin. apply Hh in Hin. split; [lia|split; [apply No7; lia|lia]]. }
+  rewrite <- Q11 in *. clear Q11 Es11u0.
+  assert (M11' : mid (try_B' s) t7 s11u) by (apply (try_B_weaken s t5 t7 hbs); [lia|exact Hh|exact M11]).
+  assert (Hpend : forall p, next s <= p -> p < next t5 -> p <> next s -> noout s11u p).
+  { intros p H1 H2 H3. apply (noout_mid (try_B (next s) hbs) t7); [apply No7; exact H1|exact M11| |lia].
+    intros [H|H]; [lia|]. apply Hh in H. lia. }
+  pose proof (m_next _ _ _ M11) as N11.
+  destruct (try_else_spec s t7 s11u elseb f eb t1u t1u0 Wb7 M11' L11 X11) as (M12 & L12 & X12 & Q1 & Q12 & Np12);
+    try assumption; try (unfold elseb, f; lia).
+  { apply Hpend; unfold elseb, f; lia. }
+  clear Et1u0. subst t1u0. rewrite Q12 in *.
+  destruct (try_fin_spec s t7 _ f hbs fb t2u t2u0 Wb7 M12 L12) as (M13 & L13 & X13 & Q2 & Q13);
+    try assumption; try (unfold f; lia).
+  { rewrite X12. exact X7. }
+  { apply Np12; [apply Hpend; unfold f; lia|unfold f; lia|unfold elseb; lia]. }
+  clear Et2u0. subst t2u0. rewrite Q13 in *. split; [|reflexivity].
+  eapply (try_finish s t7); [exact W|exact M7|exact No7|lia|exact M13|congruence|exact X13].
+Qed.
+
+Lemma F_elif_nil : F_elif ANil.
+Proof. intros els merge s Fe W Hm Hne. exfalso. apply Hne. reflexivity. Qed.
+
+Lemma F_simple_stmt s x y : wf s -> process_stmt s x = add_stmt s (cur s) y -> process_stmt' s x = add_stmt s (cur s) y ->
+  frame s (process_stmt s x) /\ process_stmt s x = process_stmt' s x.
+Proof. intros W E E'. rewrite E, E'. split; [apply frame_add_stmt; exact W|reflexivity]. Qed.
+
+Theorem frame_all :
+  (forall x, F_stmt x) /\ (forall b, F_block b) /\ (forall a, F_arms a) /\ (forall o, F_oblock o).
+Proof.
+  apply ast_mutind.
+  - intros k s W. eapply F_simple_stmt; [exact W|reflexivity|reflexivity].
+  - intros k s W. eapply F_simple_stmt; [exact W|reflexivity|reflexivity].
+  - exact F_return.
+  - exact F_raise.
+  - exact F_break.
+  - exact F_continue.
+  - intros k body Fb elifs Fa els Fe. destruct elifs as [|k1 b1 rest].
+    + destruct els as [|eb]; [apply F_if_nil_none; exact Fb|apply F_if_nil_some; [exact Fb|exact Fe]].
+    + apply F_if_elif; [exact Fb|apply Fa|exact Fe].
+  - intros k body Fb els Fe. destruct els as [|eb]; [apply F_while_none; exact Fb|apply F_while_some; [exact Fb|exact Fe]].
+  - intros k body Fb els Fe. destruct els as [|eb]; [apply F_for_none; exact Fb|apply F_for_some; [exact Fb|exact Fe]].
+  - intros k body Fb hs Fh els Fe fin Ff. destruct Fh as (_ & Fh & _).
+    destruct els as [|eb]; destruct fin as [|fb].
+    + apply F_try_nn; assumption.
+    + apply F_try_ns; assumption.
+    + apply F_try_sn; assumption.
+    + apply F_try_ss; assumption.
+  - intros k body Fb. apply F_with; exact Fb.
+  - intros k cases Fc. destruct Fc as (_ & _ & Fc). destruct cases as [|k1 b1 r]; [apply F_match_nil|apply F_match_cons; exact Fc].
+  - intros k cl. apply F_comp.
+  - intros k nm body _ s W. eapply F_simple_stmt; [exact W|reflexivity|reflexivity].
+  - intros k nm body Fb. apply F_class; exact Fb.
+  - exact F_block_nil.
+  - intros x Fx b Fb. apply F_block_cons; assumption.
+  - split; [exact F_elif_nil|split; [exact F_handlers_nil|exact F_cases_nil]].
+  - intros k b Fb a (Fa1 & Fa2 & Fa3). split; [apply F_elif_cons; assumption|split; [apply F_handlers_cons; assumption|apply F_cases_cons; assumption]].
+  - exact I.
+  - intros b Fb. exact Fb.
+Qed.
+
+Definition frame_stmt := proj1 frame_all.
+Definition frame_block := proj1 (proj2 frame_all).
+
+(* ---- the whole function: [build] = [build'] ---- *)
+Definition build_s2 : st := connect (nb init) entry_id 2 ENormal.
+
+Lemma wf_build_start : wf (set_cur build_s2 2).
+Proof.
+  split; cbn.
+  - lia.
+  - lia.
+  - intros u v t [H|[]]. inversion H; subst. unfold entry_id. lia.
+  - intros b Hb. unfold haskey. cbn. assert (b = 0 \/ b = 1 \/ b = 2) as [->|[->| ->]] by lia; auto.
+  - intros x [].
+  - intros l [].
+  - intros u v t [H|[]]. inversion H; subst. unfold entry_id. lia.
+Qed.
+
+Theorem build_resolved body : build body = build' body.
+Proof.
+  unfold build, build'. rewrite new_block_eq. cbv beta iota zeta.
+  change (next init) with 2. change (connect (nb init) entry_id 2 ENormal) with build_s2.
+  destruct (frame_block body _ wf_build_start) as (F & Q). rewrite <- Q.
+  set (s3 := process_block (set_cur build_s2 2) body) in *.
+  pose proof (wf_frame _ _ wf_build_start F) as W3.
+  assert (Hc : 2 <= cur s3).
+  { destruct (fr_cur _ _ F) as [(K & _)|(K & _)]; [rewrite K; cbn; lia|cbn in K; lia]. }
+  assert (H1 : N.eqb (cur s3) exit_id = false) by (apply N.eqb_neq; unfold exit_id; lia).
+  rewrite H1, (noout_has_succ _ _ exit_id (wf_noout _ W3)). reflexivity.
+Qed.
+
+Print Assumptions build_resolved.
